@@ -1328,9 +1328,11 @@ fn write_central_zip64_extra_field<T: Write>(writer: &mut T, file: &ZipFileData)
     // only appear if the corresponding Local or Central
     // directory record field is set to 0xFFFF or 0xFFFFFFFF.
     let mut size = 0;
-    let uncompressed_size = file.uncompressed_size > spec::ZIP64_BYTES_THR;
-    let compressed_size = file.compressed_size > spec::ZIP64_BYTES_THR;
-    let header_start = file.header_start > spec::ZIP64_BYTES_THR;
+    // A reader looks for the 64-bit value exactly when the 32-bit field holds the sentinel, which is
+    // also what `min(value, THR)` stores for a value equal to the threshold.
+    let uncompressed_size = file.uncompressed_size >= spec::ZIP64_BYTES_THR;
+    let compressed_size = file.compressed_size >= spec::ZIP64_BYTES_THR;
+    let header_start = file.header_start >= spec::ZIP64_BYTES_THR;
     if uncompressed_size {
         size += 8;
     }
